@@ -37,12 +37,17 @@ def leaf(tag):
     return StringVal("s✓")
 
 
-def value(tag, depth, k=None):
+def value(tag, depth, k=None, maxn=2):
+    """A value of nesting depth <= depth. At depth 2 (thorough) the first component may itself be any depth-1 value (with <= 1 component),
+    the second is a leaf - the full product of two arbitrary depth-1 components is ~50k values per kind."""
     if k is None:
         k = sym.concretize(sym.int(_f(tag + ".kind"), 0, 9 if depth > 0 else 0))
     if k == 0:
         return leaf(tag)
-    vs = [value(f"{tag}.{j}", depth - 1) for j in range(sym.concretize(sym.int(_f(tag + ".n"), 0, 2)))] if k <= 5 else []
+    vs = []
+    if k <= 5:
+        for j in range(sym.concretize(sym.int(_f(tag + ".n"), 0, maxn))):
+            vs.append(value(f"{tag}.{j}", depth - 1, None, 1) if (depth < 2 or j == 0) else leaf(f"{tag}.{j}"))
     if k == 1:
         return val.Tuple(*vs)
     if k == 2:
@@ -90,7 +95,7 @@ def _serial_types_ok(v):
     return True
 
 
-@lemma("C14", params=[(k,) for k in range(10)], unbounded="integer payloads", bounds="one task per outermost value kind; value expressions of nesting depth <= 1 (quick) / 2 (thorough) with <= 2 fields per level over "
+@lemma("C14", params=[(k,) for k in range(10)], unbounded="integer payloads", bounds="one task per outermost value kind; value expressions of nesting depth <= 1 (quick) / 2 (thorough: first field any depth-1 value with <= 1 field, second field a leaf) with <= 2 fields per level over "
                      "bool / unit / unit-sum / int (widths 0..6) / float / string leaves, Tuple / Some / None / Left / Right helpers, arrays, lists and "
                      "static arrays of 0..2 elements, function-valued constants", outside="deeper nesting; raw Sum(tag, typ, vals) with inconsistent arguments",
        opts={"max_paths": 400000, "timeout_s": 3000, "optional_clauses": ["helper_tag", "helper_builds_matching_sum_type"]})
